@@ -210,6 +210,17 @@ func init() {
 					plans = append(plans, p)
 				}
 			}
+			// (first, so that these long scenarios start at once)
+			// contended: one operation against three single-operation writer threads (a retrying
+			// swap! can lose up to three races in a row)
+			for i := 0; i < n; i++ {
+				for _, w := range []int{1, 2} { // reset!, swap!-inc
+					if tier != "thorough" && !(w == 1 && i == 5) {
+						continue // quick: only the self-reading swap! against three reset!s
+					}
+					add([][]int{{i}, {w}, {w}, {w}})
+				}
+			}
 			for i := 0; i < n; i++ {
 				for j := i; j < n; j++ {
 					add([][]int{{i}, {j}})
@@ -220,16 +231,6 @@ func init() {
 					for k := j; k < n; k++ {
 						add([][]int{{i}, {j}, {k}})
 					}
-				}
-			}
-			// contended: one operation against three single-operation writer threads (a retrying
-			// swap! can lose up to three races in a row)
-			for i := 0; i < n; i++ {
-				for _, w := range []int{1, 2} { // reset!, swap!-inc
-					if tier != "thorough" && !(w == 1 && i == 5) {
-						continue // quick: only the self-reading swap! against three reset!s
-					}
-					add([][]int{{i}, {w}, {w}, {w}})
 				}
 			}
 			// two operations on one thread against one (quick) / two (thorough) on the other
